@@ -163,7 +163,11 @@ class ArgsFormatBuilder(object):
     def get_command_options(
         self, include_base=True
     ):  # type: (bool) -> Iterable[CommandOption]
-        command_options = list(self._command_options.values())
+        # An option is registered once per long name and alias: list it once
+        command_options = []
+        for command_option in self._command_options.values():
+            if command_option not in command_options:
+                command_options.append(command_option)
 
         if include_base and self._base_format:
             command_options += self._base_format.get_command_options()
